@@ -175,5 +175,47 @@ pub fn run(out: &mut Out, tier: &str, seed: u64, _corpus: Option<&str>) {
             }
         }
     }
+    // ---- (4) several elements on one encoder (arrays, cube maps), generation starting at different levels per element,
+    //      flat colour per element: every element's chain has the declared sizes and its own colour (no state carried over)
+    for (kind, n) in [(0u8, 2usize), (0, 3), (1, 6)] {
+        for &(w, filter) in &[(16u32, ResizeFilter::Box), (8, ResizeFilter::Triangle), (16, ResizeFilter::Mitchell), (4, ResizeFilter::Lanczos3)] {
+            for order in 0..2 {
+                let format = Format::R8G8B8A8_UNORM; let color = ColorFormat::RGBA_U8;
+                let header = if kind == 0 { Header::Dx10(Dx10Header::new_image(w, w, DxgiFormat::R8G8B8A8_UNORM).with_array_size(n as u32)).with_mipmaps() } else { Header::new_cube_map(w, w, format).with_mipmaps() };
+                let Some(header) = header_ok(header) else { continue; };
+                let what = format!("{} of {n} {w}x{w} RGBA U8 {:?}, per-element start levels, order {order}", if kind == 0 { "array" } else { "cube map" }, filter);
+                let levels_n = 32 - w.leading_zeros();
+                let colour = |e: usize| [30 + 40 * e as u8, 200 - 30 * e as u8, (e * 77 % 256) as u8, 255u8];
+                let mut file = Vec::new();
+                let r = catch(|| -> Result<(), EncodingError> {
+                    let mut enc = Encoder::new(&mut file, format, &header)?;
+                    enc.mipmaps.resize_filter = filter;
+                    for e in 0..n {
+                        // number of levels written by hand before the rest is generated: 1, 2, 1, 3, ... (or the reverse order)
+                        let hand = (1 + (if order == 0 { e } else { n - 1 - e }) % 3).min(levels_n as usize);
+                        for l in 0..hand {
+                            let s = (w >> l).max(1);
+                            let px: Vec<u8> = (0..s * s).flat_map(|_| colour(e)).collect();
+                            enc.mipmaps.generate = l + 1 == hand;
+                            enc.write_surface(ImageView::new(&px, Size::new(s, s), color).unwrap())?;
+                        }
+                    }
+                    enc.finish()
+                });
+                match r { Some(Ok(())) => {} other => { println!("IMPL-VIOLATION {:?}: {what}", other.map(|r| r.map_err(|e| e.to_string()))); continue; } }
+                out.count("multi_element_chains");
+                let Some(levels) = read_levels(&file, color, &what) else { continue; };
+                if levels.len() != n * levels_n as usize { println!("IMPL-VIOLATION {} surfaces instead of {}: {what}", levels.len(), n * levels_n as usize); continue; }
+                'outer: for e in 0..n { for l in 0..levels_n as usize {
+                    let lv = &levels[e * levels_n as usize + l];
+                    let s = (w >> l).max(1);
+                    if (lv.w, lv.h) != (s, s) { println!("IMPL-VIOLATION element {e} level {l} is {}x{} instead of {s}x{s}: {what}", lv.w, lv.h); break 'outer; }
+                    let want = colour(e);
+                    if lv.px.iter().enumerate().any(|(i, &v)| v != want[i % 4] as f64) { println!("IMPL-VIOLATION element {e} level {l} does not hold the element's flat colour: {what}"); break 'outer; }
+                } }
+            }
+        }
+    }
     out.case(1, &[16], &[16]);
 }
+fn header_ok(h: Header) -> Option<Header> { if dds::DataLayout::from_header(&h).is_ok() { Some(h) } else { None } }
